@@ -35,7 +35,9 @@ namespace nmtools::index
 
             auto n_channel_per_group = at(src_shape,src_channel_axis) / groups;
 
-            at(result,dst_group_axis)   = groups;
+            // NOTE: input is viewed as (..., groups, 1, C/groups, ...) against weight (groups, O/groups, C/groups, ...):
+            // output channel o belongs to group o / (O/groups)
+            at(result,dst_group_axis-1) = groups;
             at(result,dst_group_axis+1) = n_channel_per_group;
 
             for (nm_index_t i=1; i<=nm_index_t(n_planes); i++) {
@@ -84,8 +86,8 @@ namespace nmtools::index
             }
             auto group_axis = meta::ct_v<1>;
             auto outch_axis = meta::ct_v<0>;
-            at(result,group_axis) = groups;
-            at(result,outch_axis) = at(src_shape,outch_axis) / groups;
+            at(result,outch_axis) = groups;
+            at(result,group_axis) = at(src_shape,outch_axis) / groups;
         }
 
         return result;
